@@ -281,6 +281,9 @@ func init() {
 		"math.Float32frombits": func(m *Machine, c *frame, fn *ssa.Function, a []value) value { return a[0] },
 		"math.Float64bits":     func(m *Machine, c *frame, fn *ssa.Function, a []value) value { return a[0] },
 		"math.Float64frombits": func(m *Machine, c *frame, fn *ssa.Function, a []value) value { return a[0] },
+		// machine/process identity: fixed
+		"github.com/lugu/qiloop/bus/util.MachineID": func(m *Machine, c *frame, fn *ssa.Function, a []value) value { return mkStr("verif-machine-id") },
+		"github.com/lugu/qiloop/bus/util.ProcessID": func(m *Machine, c *frame, fn *ssa.Function, a []value) value { return mkConst(32, 4242) },
 		// os
 		"os.Getpid":   func(m *Machine, c *frame, fn *ssa.Function, a []value) value { return mkConst(64, 4242) },
 		"os.Getenv":   func(m *Machine, c *frame, fn *ssa.Function, a []value) value { return mkStr("") },
